@@ -330,6 +330,7 @@ func (s *Sched) yield(what string) {
 	}
 	me := s.cur
 	s.steps++
+	me.lastEv = mix(me.lastEv, strHash(what), 23) // reaching a scheduling point is progress of this thread
 	if s.steps > s.maxSteps {
 		s.StepCap = true
 		me.reason = "step cap at " + what
@@ -502,5 +503,16 @@ func MapKeys[K comparable, V any](m map[K]V) []K {
 		copy(keys[1:i+1], keys[:i])
 		keys[0] = k
 	}
+	return keys
+}
+
+// MapKeysSorted returns the keys of m in sorted order (deterministic stand-in for Go's random
+// iteration order where the order is not observable to the property).
+func MapKeysSorted[K comparable, V any](m map[K]V) []K {
+	keys := make([]K, 0, len(m))
+	for k := range m {
+		keys = append(keys, k)
+	}
+	sort.Slice(keys, func(i, j int) bool { return fmt.Sprint(keys[i]) < fmt.Sprint(keys[j]) })
 	return keys
 }
